@@ -28,6 +28,7 @@ type Profile struct {
 	Ext         bool
 	Odd         bool // schemas that are legal but unusual (no body, clashes, nested targetables)
 	NoSchema    bool    // path context without a schema
+	ClonePath   bool    // append a copy of path 0 under another directory (same files, same offsets)
 	HalfTyped   float64 // probability that an any-expression is an unfinished piece of text (as left while typing)
 }
 
@@ -96,10 +97,27 @@ func (g *Gen) desc() string {
 }
 
 func (g *Gen) modsList() []string {
-	if g.chance(0.25) {
-		return []string{g.pick([]string{"hcl-dependent", "tf-x", "tf-y"})}
+	// 0-3 modifiers: slices of length 3 get capacity 4 when appended one by
+	// one, which is what aliasing bugs in modifier inheritance need
+	if !g.chance(0.4) {
+		return nil
 	}
-	return nil
+	pool := []string{"hcl-dependent", "tf-x", "tf-y", "tf-z", "tf-w"}
+	n := 1 + g.n(3)
+	var out []string
+	for i := 0; i < n; i++ {
+		m := pool[g.n(len(pool))]
+		dup := false
+		for _, x := range out {
+			if x == m {
+				dup = true
+			}
+		}
+		if !dup {
+			out = append(out, m)
+		}
+	}
+	return out
 }
 
 // ---------------------------------------------------------------------------
@@ -107,6 +125,13 @@ func (g *Gen) modsList() []string {
 
 func (g *Gen) cons(depth int) *ConsSpec {
 	k := g.n(100)
+	if g.P.JSONTwin {
+		// keywords, type declarations and fixed literal values are written as
+		// bare words in native syntax; the both-syntax fragment leaves them out
+		for (k >= 44 && k < 59) || k >= 93 {
+			k = g.n(100)
+		}
+	}
 	if depth >= 2 && k >= 55 {
 		k = g.n(55)
 	}
